@@ -281,7 +281,11 @@ def _judge_data_path(it, ctx, ag, cls, fl, fcommon, has_init, tyname, NAME1, NAM
                     if any(l.head in ('.zero', '.skip', '.space') and l.ops and same(op_val(l.ops[0]), szv) for l in datal):
                         msg = 'an initialised object is emitted as zeros'
                 al = [l for l in body[:li] if l.kind == 'dir' and l.head in ('.align', '.balign')]
-                if msg is None and len(al) != 1:
+                if msg is None and any(l.kind == 'dir' and l.head == '.p2align' for l in body[:li]):
+                    ag.undecided('align/' + cls, 'this rule does not evaluate .p2align', labels[0].src_line)
+                    al = []
+                    alignv = None
+                elif msg is None and len(al) != 1:
                     msg = 'expected exactly one .align before the label, found %d' % len(al)
                 elif msg is None:
                     alignv = (op_val(al[0].ops[0]) if al[0].ops else None, al[0].src_line)
@@ -331,6 +335,9 @@ def r152(cg, rep):
     NAME1, NAME2 = ('sym', 'fn.name'), ('sym', 'next.name')
     n = 0
     for fl in _bits(('is_function', 'is_definition', 'is_live', 'is_static')):
+        if fl['is_function'] and fl['is_definition'] and not fl['is_live'] and not fl['is_static']:
+            continue        # R15.3: only static inline functions can be left unmarked by parse()
+
         def mk(ctx, fl=fl):
             def func(label, **kw):
                 f = Obj('Obj', lazy=True, label=label)
@@ -1116,14 +1123,19 @@ def r153(pe, rep):
     rep.rule('R15.3', 'liveness: is_root is false exactly for unreferenced static inline functions and a root mark is never withdrawn; every reference to a function is '
              'recorded (on current_fn->refs inside a function, as a root mark at file scope); current_fn designates the function exactly while its body is parsed; '
              'mark_live marks before it recurses, tests is_live, visits every recorded reference; parse marks from every root', floor=18)
-    _need(pe.u, PU, 'function', 'primary', 'find_func', 'mark_live', 'parse', 'new_gvar')
-    r153_function(pe, rep)
+    def part(fns, f):
+        try:
+            _need(pe.u, PU, *fns)
+            f()
+        except AnalysisBroken as e:
+            rep.undecided('R15.3', '%s:%s:analysis' % (PU, fns[0]), 'part of the rule could not be evaluated: %s' % e)
+    part(('function', 'new_gvar'), lambda: r153_function(pe, rep))
     keep = [o for o in rep.obs if o['key'] == 'R15.3:%s:function:is_root/redeclaration-keeps-root-mark' % PU]
     permanent = bool(keep) and all(o['verdict'] == 'holds' for o in keep)
     lk = [o for o in rep.obs if o['key'] in ('R15.3:%s:function:is_root/first-declaration' % PU, 'R15.3:%s:function:is_root/redeclaration' % PU)]
-    r153_primary(pe, rep, permanent, len(lk) == 2 and all(o['verdict'] == 'holds' for o in lk))
-    r153_mark_live(pe, rep)
-    r153_parse(pe, rep)
+    part(('primary',), lambda: r153_primary(pe, rep, permanent, len(lk) == 2 and all(o['verdict'] == 'holds' for o in lk)))
+    part(('mark_live', 'find_func'), lambda: r153_mark_live(pe, rep))
+    part(('parse', 'mark_live', 'scan_globals'), lambda: r153_parse(pe, rep))
 
 
 # =============================================================================================
@@ -1217,7 +1229,7 @@ def r155_global_variable(pe, rep):
 
 def r155_scan_globals(pe, rep):
     """bounded-exhaustive evaluation of scan_globals on every list of up to three file-scope objects over two names
-    (tentative / initialised / extern), plus lists with functions"""
+    (tentative / initialised / extern), external and internal linkage, plus lists with functions"""
     u = pe.u
     fline = u.fn('scan_globals').line
     ag = Agg(rep, 'R15.5', PU, 'scan_globals')
@@ -1239,7 +1251,8 @@ def r155_scan_globals(pe, rep):
             objs = []
             for idx, (nm, k) in enumerate(lst):
                 o = Obj('Obj', lazy=False, label='%s%d:%s' % (nm, idx, k))
-                o.fields.update(dict(name=nm, is_function=int(k == 'F'), is_definition=int(k != 'E'), is_tentative=int(k == 'T'), is_static=static, is_tls=0, is_local=0, is_root=0, next=0))
+                o.fields.update(dict(name=nm, is_function=int(k == 'F'), is_definition=int(k != 'E'), is_tentative=int(k == 'T'), is_static=static, is_tls=0,
+                                     is_local=0, is_root=0, next=0))
                 objs.append(o)
             for a, b in zip(objs, objs[1:]):
                 a.fields['next'] = b
@@ -1302,9 +1315,15 @@ def r155_scan_globals(pe, rep):
 def r155(pe, rep):
     rep.rule('R15.5', 'file-scope objects: is_definition / is_static / is_tls / is_tentative follow C11 6.9.2 from (storage class, _Thread_local, initialiser); '
              'scan_globals removes exactly the tentative definitions made redundant by another definition, keeps one of several tentative ones, keeps order', floor=30)
-    _need(pe.u, PU, 'global_variable', 'scan_globals', 'new_gvar')
-    r155_global_variable(pe, rep)
-    r155_scan_globals(pe, rep)
+
+    def part(fns, f):
+        try:
+            _need(pe.u, PU, *fns)
+            f()
+        except AnalysisBroken as e:
+            rep.undecided('R15.5', '%s:%s:analysis' % (PU, fns[0]), 'part of the rule could not be evaluated: %s' % e)
+    part(('global_variable', 'new_gvar'), lambda: r155_global_variable(pe, rep))
+    part(('scan_globals',), lambda: r155_scan_globals(pe, rep))
 
 
 # =============================================================================================
@@ -1385,7 +1404,8 @@ def r156(pe, rep):
             def h_init(it, ctx, nd, args):
                 ctx.emit('init', _final(it, args[2]) if len(args) > 2 else None, nd.line)
                 return None
-            it = pe.interp(('declaration',) + keep, opaque=('new_alloca', 'new_vla_ptr'), cut={'equal': h_equal, 'declarator': h_decl, 'get_ident': h_ident, 'push_scope': h_push, 'gvar_initializer': h_init},
+            it = pe.interp(('declaration',) + keep, opaque=('new_alloca', 'new_vla_ptr'),
+                           cut={'equal': h_equal, 'declarator': h_decl, 'get_ident': h_ident, 'push_scope': h_push, 'gvar_initializer': h_init},
                            globals_={'globals': lambda ctx: ctx.c15_g0, 'locals': lambda ctx: ctx.c15_l0})
 
             def mk(ctx, tls=tls):
@@ -1431,11 +1451,6 @@ def r156(pe, rep):
 # =============================================================================================
 # R15.7 option plumbing
 # =============================================================================================
-def _glob(it, ctx, name, default=None):
-    v = ctx.globals.get(name, default)
-    return _final(it, v)
-
-
 def r157(P, rep):
     rep.rule('R15.7', 'option plumbing: -fcommon/-fno-common (last one wins) and -fpic/-fPIC set the globals read by emit_data/gen_addr and nothing else does; -static/-shared '
              'reach run_linker, which selects start files, dynamic linker and libraries by them', floor=18)
@@ -1489,8 +1504,7 @@ def r157(P, rep):
             for f in FLAGS:
                 v = ctx.globals.get(f)
                 if v is None:
-                    # never touched: the initial value from its definition
-                    v = _initial_global(it, P, f)
+                    v = _initial_global(it, P, f)      # never touched: the value at program start
                 vals[f] = _final(it, v)
             allvals.append(vals)
         ctx, out = okp[0]
@@ -1638,14 +1652,33 @@ def _render(x):
 
 
 def run(P, rep, tier):
+    rep.explanation = ('Decision tables of the symbol-emission code, obtained by abstract interpretation (Engine I) of chibicc\'s own source on complete finite input '
+                       'domains and compared with oracle tables: emit_data / emit_text / gen_addr(ND_VAR) for every combination of the linkage and storage flags of an Obj '
+                       'and of -fcommon / -fPIC (emitted directives are parsed and the address left in %rax is evaluated symbolically); function(), primary(), '
+                       'global_variable(), declaration() for every combination of declaration attributes; mark_live on all reference graphs over three functions; '
+                       'scan_globals on all lists of up to three file-scope objects over two names; parse_args / run_linker on concrete option vectors. '
+                       'Not decided: link results, run-time equivalence of the configurations, initialiser bytes (C05), prologue/epilogue (C06), C11 inline-definition '
+                       'merging across redeclarations with different specifiers, initial-exec TLS for extern thread-locals of shared objects.')
+    rep.assumptions += ['states never built by the parser are not judged (tentative with initialiser / thread-local / extern; local thread-local; non-static function that is not live)',
+                        'one declarator per declaration in global_variable()/declaration(); a definition has `{` where a prototype has `;`',
+                        'gas semantics: a symbol is local unless .globl; .comm is global unless preceded by .local; .L names stay out of the symbol table',
+                        'psABI 3.1.2 array alignment, ELF TLS ABI (general-dynamic 16-byte pattern, local-exec), crt start-file order of the GNU toolchain',
+                        'lists are analysed with the object under test followed by one plain definition (continuation), graphs with three functions (bounded-exhaustive)']
     cg = CG(P)
     _need(cg.cu, CGU, 'emit_data', 'emit_text', 'gen_addr', 'println')
-    rep.explanation = ''
-    r151(cg, rep)
-    r152(cg, rep)
-    r154(cg, rep)
-    pe = ParseEnv(P, cg)
-    r153(pe, rep)
-    r155(pe, rep)
-    r156(pe, rep)
-    r157(P, rep)
+    envs = {}
+
+    def penv():
+        if 'pe' not in envs:
+            envs['pe'] = ParseEnv(P, cg)
+        return envs['pe']
+    steps = [('R15.1', lambda: r151(cg, rep)), ('R15.2', lambda: r152(cg, rep)), ('R15.4', lambda: r154(cg, rep)),
+             ('R15.3', lambda: r153(penv(), rep)), ('R15.5', lambda: r155(penv(), rep)), ('R15.6', lambda: r156(penv(), rep)),
+             ('R15.7', lambda: r157(P, rep))]
+    for rule, f in steps:
+        try:
+            f()
+        except AnalysisBroken as e:        # one rule that cannot be evaluated must not hide the verdicts of the others
+            rep.undecided(rule, 'analysis', 'rule could not be evaluated: %s' % e)
+        except RecursionError as e:
+            rep.undecided(rule, 'analysis', 'interpreter recursion limit: %s' % e)
